@@ -118,7 +118,26 @@ func genDoc(t *rapid.T) (string, map[string]interface{}) {
 	}
 	n := rapid.IntRange(0, 4).Draw(t, "nmut")
 	for i := 0; i < n; i++ {
-		switch rapid.IntRange(0, 6).Draw(t, "mutkind") {
+		switch rapid.IntRange(0, 7).Draw(t, "mutkind") {
+		case 7: // one named fragment spread at several places, whatever type stands there
+			var pos []int
+			for j, ch := range text {
+				if ch == '{' {
+					pos = append(pos, j+1)
+				}
+			}
+			if len(pos) > 0 && !strings.Contains(text, "fragment XF") {
+				k := rapid.IntRange(1, 3).Draw(t, "xfspreads")
+				var at []int
+				for i := 0; i < k; i++ {
+					at = append(at, pos[rapid.IntRange(0, len(pos)-1).Draw(t, "xfpos")])
+				}
+				sort.Sort(sort.Reverse(sort.IntSlice(at)))
+				for _, p := range at {
+					text = text[:p] + " ...XF " + text[p:]
+				}
+				text += rapid.SampledFrom([]string{" fragment XF on O1 { name tag }", " fragment XF on O2 { label ok }", " fragment XF on Query { allO1 { id } }", " fragment XF on O3 { title sub { a } }", " fragment XF on U1 { __typename }"}).Draw(t, "xfdef")
+			}
 		case 6: // duplicate a range in place (same selection, alias or argument twice)
 			if len(text) > 2 {
 				a := rapid.IntRange(0, len(text)-2).Draw(t, "dupa")
@@ -451,12 +470,12 @@ func TestHTTP(t *testing.T) {
 // ---------- (3) resolver panics, (4) cancellation ----------
 
 type gate struct {
-	mu       sync.Mutex
-	target   string // "Type.field"
-	mode     string // "" | panic | block | cancel
-	hit      int32
-	cancel   context.CancelFunc
-	release  chan struct{}
+	mu      sync.Mutex
+	target  string // "Type.field"
+	mode    string // "" | panic | block | cancel
+	hit     int32
+	cancel  context.CancelFunc
+	release chan struct{}
 }
 
 var theGate = &gate{}
